@@ -15,11 +15,28 @@ pub broadcast axiom fn axiom_display_str_ref<'a>(s: &&'a str) ensures #[trigger]
 pub broadcast axiom fn axiom_display_string(s: &String) ensures #[trigger] display_view::<String>(s) == s@;
 pub broadcast axiom fn axiom_display_string_ref<'a>(s: &&'a String) ensures #[trigger] display_view::<&'a String>(s) == (*s)@;
 pub broadcast axiom fn axiom_display_str_ref_ref<'a, 'b>(s: &&'b &'a str) ensures #[trigger] display_view::<&'b &'a str>(s) == (**s)@;
-pub broadcast group group_display { axiom_display_str, axiom_display_str_ref, axiom_display_string, axiom_display_string_ref, axiom_display_str_ref_ref }
+pub broadcast axiom fn axiom_display_string_ref_ref<'a, 'b>(s: &&'b &'a String) ensures #[trigger] display_view::<&'b &'a String>(s) == (**s)@;
+pub broadcast group group_display { axiom_display_str, axiom_display_str_ref, axiom_display_string, axiom_display_string_ref, axiom_display_str_ref_ref, axiom_display_string_ref_ref }
 #[verifier::external_body]
 pub fn vx_fmt1<T: core::fmt::Display + ?Sized>(pre: &str, a: &T, post: &str) -> (r: String)
     ensures r@ == pre@ + display_view(a) + post@
 { format!("{pre}{a}{post}") }
+#[verifier::external_body]
+pub fn vx_fmt0(p0: &str) -> (r: String)
+    ensures r@ == p0@
+{ p0.to_string() }
+#[verifier::external_body]
+pub fn vx_fmt2<A: core::fmt::Display + ?Sized, B: core::fmt::Display + ?Sized>(p0: &str, a: &A, p1: &str, b: &B, p2: &str) -> (r: String)
+    ensures r@ == p0@ + display_view(a) + p1@ + display_view(b) + p2@
+{ format!("{p0}{a}{p1}{b}{p2}") }
+#[verifier::external_body]
+pub fn vx_fmt3<A: core::fmt::Display + ?Sized, B: core::fmt::Display + ?Sized, C: core::fmt::Display + ?Sized>(p0: &str, a: &A, p1: &str, b: &B, p2: &str, c: &C, p3: &str) -> (r: String)
+    ensures r@ == p0@ + display_view(a) + p1@ + display_view(b) + p2@ + display_view(c) + p3@
+{ format!("{p0}{a}{p1}{b}{p2}{c}{p3}") }
+#[verifier::external_body]
+pub fn vx_fmt4<A: core::fmt::Display + ?Sized, B: core::fmt::Display + ?Sized, C: core::fmt::Display + ?Sized, D: core::fmt::Display + ?Sized>(p0: &str, a: &A, p1: &str, b: &B, p2: &str, c: &C, p3: &str, d: &D, p4: &str) -> (r: String)
+    ensures r@ == p0@ + display_view(a) + p1@ + display_view(b) + p2@ + display_view(c) + p3@ + display_view(d) + p4@
+{ format!("{p0}{a}{p1}{b}{p2}{c}{p3}{d}{p4}") }
 
 // R15 shims for `write!` / `writeln!` into a String with at most one plain placeholder (fmt::Write for String appends)
 #[verifier::external_body]
